@@ -98,9 +98,22 @@ def explore(system, ops, step, canon, absm=None, depth_cap=None, merge_reps=1,
                     raise MergeError(f"enabled ops differ for merged state {c!r}: {rep1} vs {rep2}")
                 for o in ops1:
                     a1 = build(rep1)
-                    o1 = step(a1, o)[0]
+                    o1, m1 = step(a1, o)
                     a2 = build(rep2)
-                    o2 = step(a2, o)[0]
+                    o2, m2 = step(a2, o)
+                    # a disagreement with the reference model from the alternative representative is a
+                    # violation of the property (found through a path the seen-set would have pruned),
+                    # not a defect of the canonical form
+                    bad = False
+                    for rep, ob, mb, sy in ((rep1, o1, m1, a1), (rep2, o2, m2, a2)):
+                        if ob != mb:
+                            res.violations.append(("obs", rep, o, ob, mb))
+                            bad = True
+                        elif absm is not None and canon(sy) != absm(sy):
+                            res.violations.append(("state", rep, o, canon(sy), absm(sy)))
+                            bad = True
+                    if bad:
+                        break
                     if o1 != o2 or canon(a1) != canon(a2):
                         raise MergeError(
                             f"canon too coarse: {rep1} and {rep2} merge to {c!r} but op {o} "
